@@ -41,6 +41,11 @@ type c20Input struct {
 	// Nested: the context the experiment's options are attached to already descends from a context carrying OTHER
 	// options (an application base context, a reloaded configuration): the innermost options govern the run
 	Nested int `json:"nested_options_context,omitempty"`
+	// Short > 0: Experiment.Trials is non-nil but Short entries SHORTER than the number of trials (an empty
+	// non-nil slice; a value used before with fewer runs): still every trial is recorded
+	Short int `json:"short_trials_slice,omitempty"`
+	// NoChamp: the evaluator reports solved generations without filling the generation's statistics (Champion stays nil)
+	NoChamp bool `json:"no_champion,omitempty"`
 }
 
 type c20Pop struct {
@@ -51,11 +56,12 @@ type c20Pop struct {
 }
 
 type c20Env struct {
-	script [][]int
-	cancel context.CancelFunc
-	trace  [][]int64
-	pops   []*c20Pop       // distinct populations in order of first appearance
-	byT    map[int]*c20Pop // population evaluated in trial t
+	script  [][]int
+	cancel  context.CancelFunc
+	trace   [][]int64
+	pops    []*c20Pop // distinct populations in order of first appearance
+	noChamp bool
+	byT     map[int]*c20Pop // population evaluated in trial t
 }
 
 func (e *c20Env) popFor(p *genetics.Population) (int, *c20Pop) {
@@ -93,7 +99,9 @@ func (e *c20Env) GenerationEvaluate(_ context.Context, pop *genetics.Population,
 	for i, o := range pop.Organisms {
 		o.Fitness = 1.0 + float64(i%7)
 	}
-	epoch.FillPopulationStatistics(pop)
+	if !e.noChamp {
+		epoch.FillPopulationStatistics(pop)
+	}
 	if epoch.TrialId < len(e.script) && epoch.Id >= len(e.script[epoch.TrialId])+2 {
 		// the run is two generations past anything the script (and so the model) can ask for: stop it here, the
 		// trace already differs from the model's
@@ -177,8 +185,18 @@ func c20Exec(in c20Input) (trace [][]int64, status int, execErr error) {
 	}
 	ctx, cancel := context.WithCancel(base)
 	defer cancel()
-	env := &c20Env{script: in.Script, cancel: cancel, byT: map[int]*c20Pop{}}
+	env := &c20Env{script: in.Script, cancel: cancel, byT: map[int]*c20Pop{}, noChamp: in.NoChamp}
 	exp := experiment.Experiment{}
+	if in.Short > 0 {
+		n := len(in.Script) - in.Short
+		if n < 0 {
+			n = 0
+		}
+		exp.Trials = make(experiment.Trials, n)
+		for i := range exp.Trials {
+			exp.Trials[i].Id = -1
+		}
+	}
 	if in.Prealloc > 0 {
 		exp.Trials = make(experiment.Trials, len(in.Script)+in.Prealloc)
 		for i := range exp.Trials {
@@ -210,8 +228,21 @@ func c20Exec(in c20Input) (trace [][]int64, status int, execErr error) {
 	// record events are not callbacks: they are read off Experiment.Trials afterwards and merged
 	// into the trace right before the matching finish event (or at the position the model puts them
 	// when there is no observer: after the last event of the trial)
-	err := exp.Execute(neat.NewContext(ctx, opts), readPlain(tinyGenome, 1), env, obs)
+	var err error
+	panicked := false
+	func() {
+		defer func() {
+			if p := recover(); p != nil {
+				panicked = true
+				err = fmt.Errorf("Execute panicked: %v", p)
+			}
+		}()
+		err = exp.Execute(neat.NewContext(ctx, opts), readPlain(tinyGenome, 1), env, obs)
+	}()
+	execErr = err
 	switch {
+	case panicked:
+		status = 8
 	case err == nil:
 		status = 0
 	case errors.Is(err, errEvalC20):
@@ -446,10 +477,15 @@ func runC20(r *Run) error {
 			}
 		}
 		in := c20Input{Obs: r.Rng.Intn(2) == 0, Script: script}
-		if i%2 == 0 {
+		switch i % 4 {
+		case 0:
 			in.Prealloc = 1 + r.Rng.Intn(3)
-		} else {
+		case 1:
 			in.Reuse = true
+		case 2:
+			in.Short = 1 + r.Rng.Intn(3) // a non-nil Trials slice that is too short (possibly empty)
+		default:
+			in.NoChamp = true // solved generations are reported without a champion
 		}
 		add(in)
 	}
